@@ -12,7 +12,7 @@ CHECKS = {
          "valuation of the domain (complete at width<=4) the built form, three simplify variants (via an independent structural walker) and "
          "mapper evaluation are compared with int arithmetic. Any rewrite-rule or constant-operator defect whose smallest witness is inside the bound is found on every run.",
     note="Bound: <=2 operators at w=3 (quick), <=2 at w in 1,2,3,4,8 and <=3 over the re-association sub-alphabet (thorough); 1 operator at widths 1..128; complexity threshold off and small. "
-         "Sign-sensitive operators take operands whose every leaf and node was declared signed/unsigned. Trusted: amc/ref/bv.py, amc/gen/exprs.py.",
+         "Sign-sensitive operators take operands whose every leaf and node was declared signed/unsigned. Trusted: amc/ref/bv.py, amc/gen/exprs.py. Added after the seeded-change experiments: a raw-node route (top operator built with the node classes, then each simplify option), compositions of 3-4 parts combined with constants/sliced, all bit slices of mem(p,16/32) in both endiannesses, and trees with unknown (top) leaves (widths only).",
     design="DESIGN.md section 3, C01"),
  "C09": dict(
     category="model_checking",
@@ -20,14 +20,14 @@ CHECKS = {
     text="Every program up to the length bound over the store/load alphabet (2 pointers, offsets 0..2, sizes 8..32/64, both endiannesses) is executed symbolically once; for every pointer assignment "
          "the composed concrete result (loaded registers, with mem-with-mods results interpreted by replaying their ordered mods, and every byte of the memory window) must equal the byte-level execution; "
          "with the no-aliasing assumption only for assignments where different pointers do not overlap.",
-    note="Bound: length <=2 full alphabet, length 3 reduced (quick) / larger + length 4 reduced (thorough). Known findings: endianness lost in the write trace; aliasing window after a narrower store.",
+    note="Bound: length <=2 full alphabet, length 3 reduced (quick) / larger + length 4 reduced (thorough). Known findings: endianness lost in the write trace; aliasing window after a narrower store. Quick also runs all store-only triples and two length-4 families (any/store/store/load over two value registers; store/store/store/load over two offsets). Failing programs are delta-reduced to a minimal failing program before their signature is taken; shadowing is keyed by failure kind, endianness and configuration.",
     design="DESIGN.md section 3, C09"),
  "C10": dict(
     category="model_checking",
     technique="explicit-state BFS over process-global mutable state (module-level register objects' size/sf/etype/_subrefs, internals, regtype.cur, pending prefix) with transitions = decode+symbolic execution/evaluation; invariant = probe blocks evaluate identically (rebuilt and old map objects) in every reachable global state",
     text="Per ISA mode in a fresh process the global state is snapshotted; every spec-driven executable instruction is a transition (plus map evaluation and a failing decode); states are de-duplicated on the snapshot "
          "(restore fidelity and probe reproducibility asserted); in every new global state every probe block - the derived alphabet plus automatically detected sign-sensitive consumers - is rebuilt and evaluated on three concrete "
-         "states and the map objects built in the initial state are re-evaluated; all constants must be unchanged.",
+         "states and the map objects built in the initial state are re-evaluated; all constants must be unchanged. Consumers are also searched per changed global object (an encoding of a sign-sensitive specification whose result depends on that very object), and the probe failures of a global state are attributed to every transition that reaches it.",
     note="Depth 2 (quick) / 3 (thorough); below the first level only the alphabet is applied. Known findings: semantics that call .signed()/set sf on shared registers (x86 ADD/DEC/SCAS -> IMUL, ARM, tricore, pic18, sh2) and ARM SETEND/BXJ changing internals.",
     design="DESIGN.md section 3, C10"),
  "C11": dict(
@@ -43,7 +43,7 @@ CHECKS = {
     category="model_checking",
     technique="bounded exhaustive enumeration of expression trees; width and comp-tiling invariants checked on every construction/simplify/eval/slice result",
     text="Same enumeration as C01; every result object (built, simplified with each option set, evaluated under concrete and partial maps, sliced) "
-         "must have the width dictated by construction and every reachable comp must tile [0,size) consistently with smask.",
+         "must have the width dictated by construction and every reachable comp must tile [0,size) consistently with smask. A live mapper is also explored: every history (depth 3/4) of whole, byte and one-bit register writes; after each write the register value must have the register width and parts that tile it.",
     note="Same bounds as C01. Trusted: width function of amc/gen/exprs.py and comps_ok of amc/ref/bv.py.",
     design="DESIGN.md section 3, C12"),
  "C13": dict(
@@ -51,7 +51,7 @@ CHECKS = {
     technique="explicit-state BFS over operation histories on pools of shared expression objects; invariant = fingerprints of pre-existing members unchanged; pickle round trip of every object reached",
     text="From 5 root pools of deliberately shared objects, every history (depth 2 quick / 3 thorough) of ~40 operation kinds x all operand pairs is executed "
          "on the real API; after every transition the width and the denotation (independent walker, 36 valuations) of every pre-existing member must be unchanged; "
-         "sign-flag writes are observed through enclosing sign-sensitive nodes. Every produced expression, mapper and MemoryMap is pickled, restored and compared.",
+         "sign-flag writes are observed through enclosing sign-sensitive nodes. Every produced expression, mapper and MemoryMap is pickled, restored and compared. (c) One live mapper: every history (depth 3/4) over whole/partial/one-bit register writes, memory writes, reads, read+use, m.use(), memory copies and evaluation/composition of another map in it; every expression read and every copy taken earlier keeps its denotation, and the mapper's content equals a replay of its writes alone (observers have no effect).",
     note="State = tuple of member fingerprints (sound for this property: it only observes width and denotation). Widening simplify may over-approximate the object it is applied to. "
          "Trusted: amc/ref/bv.py walker.",
     design="DESIGN.md section 3, C13"),
@@ -60,14 +60,14 @@ CHECKS = {
     technique="bounded exhaustive enumeration of synthesised ELF images (class x byte order x segment/section/symbol sets x table placements) and generated PE/Mach-O/HEX/SREC inputs, read back by independent struct-based readers; boundary-address queries; all single-nibble record corruptions",
     text="Every image of the ELF lattice is written by an independent struct-based writer and parsed by amoco: every Ehdr/Phdr/Shdr/Sym field, section names, functions/variables tables, entry point, readsegment/readsection contents, "
          "getfileoffset and data() at every segment/section boundary +-1. Shipped ELF/PE samples are cross-read field by field; generated PE32/PE32+ and Mach-O 32/64 header sets with locate/getdata/getfileoffset/getinfo at boundaries; "
-         "HEX/SREC streams over all record types, data lengths, boundary addresses and extended-address sequences; every single-nibble corruption of a record must be rejected.",
+         "HEX/SREC streams over all record types, data lengths, boundary addresses and extended-address sequences; every single-nibble corruption of a record must be rejected. PE images carry generated import tables (named and ordinal imports) compared with an independent import reader; Mach-O images also come with a __PAGEZERO and a zero-fill segment; HEX streams cover every sequence of up to three base-address records.",
     note="Structurally valid inputs only (malformed inputs are C20). Trusted: amc/ref/elfio.py and the struct readers in c14.py, written from the format specifications.",
     design="DESIGN.md section 3, C14"),
  "C15": dict(
     category="model_checking",
     technique="bounded exhaustive enumeration of loader inputs (12 ELF machines x segment geometries x filesz/memsz classes x 3 page sizes; generated PE/Mach-O; HEX/SREC/raw; shipped samples) with a byte-for-byte comparison of the task memory against an independent segment table",
     text="Every image is loaded with load_program; every byte of every loadable segment must equal the file byte mapped there, [filesz,memsz) must read as zero (the generated files carry non-zero bytes after each segment), "
-         "the program counter must equal the entry point and read_instruction must return the file's bytes. Shipped samples are compared on their constant bytes (relocation slots may hold external symbols).",
+         "the program counter must equal the entry point and read_instruction must return the file's bytes. Shipped samples are compared on their constant bytes (relocation slots may hold external symbols). Generated PE imports and generated dynamic ELF32/ELF64 executables (REL/RELA, up to 70000 dynamic symbols): exactly the slots named by the relocations hold the external symbol they bind. Raw/HEX/SREC images are relocated twice and must follow.",
     note="Geometries: aligned, unaligned-congruent, two segments sharing a page, adjacent segments; filesz == memsz, bss tail, filesz 0. Known findings: loaders returning None for aarch64/avr/bpf/sh ELF and Mach-O images.",
     design="DESIGN.md section 3, C15"),
  "C16": dict(
@@ -75,7 +75,7 @@ CHECKS = {
     technique="bounded exhaustive enumeration of structure definitions (<=3/4 fields over the field-kind alphabet, packed/natural, pointer size 32/64, unions, trailing variable-length fields) against a C layout calculator validated with gcc and python struct",
     text="For every definition: size, align_value, offsets and offset_of versus the C ABI layout (calculator cross-checked against gcc -m64/-m32 sizeof/_Alignof/offsetof tables on every run), "
          "unpack values versus struct.unpack at the C offsets, pack() of the unpacked values versus the original bytes; LEB128 read/write on ~500 boundary values.",
-    note="Failing definitions containing a smaller failing definition are shadowed. ~90 known-finding signatures (pack() of arrays/nested/bitfields/variable fields, padding not emitted, packed alignment, nested struct at unaligned offset) in KNOWN_FINDINGS.json.",
+    note="Failing definitions containing a smaller failing definition are shadowed. ~90 known-finding signatures (pack() of arrays/nested/bitfields/variable fields, padding not emitted, packed alignment, nested struct at unaligned offset) in KNOWN_FINDINGS.json. One-bitfield-per-line members (merging validated against gcc), a union with tail padding, nested structs containing pointers and big-endian counted/bound fields are part of the alphabet; signatures name the nested aggregate type.",
     design="DESIGN.md section 3, C16"),
  "C17": dict(
     category="model_checking",
@@ -90,7 +90,7 @@ CHECKS = {
     technique="explicit-state BFS over all block-insertion histories into cfg.graph (state = support/overlay/edges + inserted set) and exhaustive enumeration of sweep start addresses per ISA against an independent fetch loop and a maximal-run block model",
     text="(b) From one instruction stream every history of <=3 (thorough 4) insertions of contiguous runs is replayed on a fresh real graph; after each insertion the main support must hold pairwise-disjoint blocks whose extents equal their lengths, "
          "containing every inserted instruction exactly once, overlay unused, and a fall-through edge at every split. (a) For 14 ISAs and every start address of a 64-byte window of a synthetic code region: sweep addresses, maximal-run blocks "
-         "(delay slots included), support/raw bytes, slicing at every pair of boundaries, cutting at every boundary.",
+         "(delay slots included), support/raw bytes, slicing at every pair of boundaries, cutting at every boundary. (c) Every history (depth 3/4) of getblock / cut of the returned block / graph insertion on one lsweep object: getblock(a) must be the maximal run from a. Blocks are also cut at every non-boundary address (nothing removed); ISAs with delayed branches get every sequence of length 4 over {delayed branch, control flow, plain}.",
     note="Known findings (15 signatures = relation of the inserted run to existing nodes x failure mode) listed in KNOWN_FINDINGS.json; histories extending a failing history are shadowed.",
     design="DESIGN.md section 3, C18"),
  "C19": dict(
@@ -99,7 +99,7 @@ CHECKS = {
     text="All pairs of maps with <=2 writes over 7 location kinds x 6 value kinds, with/without path conditions, widening on/off, 3 complexity thresholds: "
          "for each written location the merged value must be unknown (top/vecw) or its alternatives must contain each input's value under every valuation "
          "satisfying that input's condition; the same after C >> merged for concrete states C; no location written by neither input appears.",
-    note="Bound: <=2 writes per map; 6 valuations; pointer registers do not overlap. Flags may be unknown. Known finding: overlapping writes inside one input map (KNOWN_FINDINGS.json).",
+    note="Bound: <=2 writes per map; 6 valuations; pointer registers do not overlap. Flags may be unknown. Known finding: overlapping writes inside one input map (KNOWN_FINDINGS.json). Nine locations (incl. a store through a vector-valued pointer with displacement); path conditions on data registers and on the base register of the stores (the latter judged by the concrete consequence only). Known findings: stale recorded value with overlapping writes in one input; equality condition on a store base in the second input.",
     design="DESIGN.md section 3, C19"),
  "C02": dict(
     category="model_checking",
@@ -123,14 +123,14 @@ CHECKS = {
     technique="exhaustive model checking of the built decision trees (every node/edge/leaf: routing and order invariants) + differential decode against a reference most-constrained-first scan on witness words of every spec and every compatible spec pair",
     text="The equivalence over all byte strings is split into structural invariants checked on every node of all 25 trees (I1: each spec's fixed bits imply its path; I2: every spec once, leaves ordered by "
          "mask weight then registration order) - which imply that all specs able to accept an input sit in the leaf it reaches, in scan order - and a dynamic part (I3, key computation): tree decode versus "
-         "reference scan on each spec's witness words at exact/longer/truncated lengths, with prefixes, on joint words of all compatible pairs, filler and empty inputs, in ARM/Thumb and both fetch endiannesses.",
+         "reference scan on each spec's witness words at exact/longer/truncated lengths, with prefixes, on joint words of all compatible pairs, filler and empty inputs, in ARM/Thumb and both fetch endiannesses. Every ISA with prefix specifications also gets two-prefix inputs longer than maxlen.",
     note="Registration order is read from the spec modules imported before the cpu module sorts them in place (fresh process per mode). Known finding: Thumb with big-endian fetch (tree built for little-endian at import).",
     design="DESIGN.md section 3, C04"),
  "C05": dict(
     category="model_checking",
     technique="complete spec-driven enumeration of instruction words per ISA mode; prefix/length/truncation/extension/window relations checked on every decoded instruction",
     text="For every byte string of the spec-driven enumeration (fields walked, tails, x86 ModRM/SIB/prefix menus) that decodes: length within bounds, bytes a prefix of the input, "
-         "decoding exactly the consumed bytes, the consumed bytes followed by each tail of the menu, and the maxlen window all yield the same instruction (bytes, mnemonic, operands, type, misc).",
+         "decoding exactly the consumed bytes, the consumed bytes followed by each tail of the menu, and the maxlen window all yield the same instruction (bytes, mnemonic, operands, type, misc). Every shorter prefix of the consumed bytes that already decodes must decode to the same instruction.",
     note="Same enumerator and bounds as C17. Known findings (dwarf/wasm/msp430 LEB/immediate tails accepted when missing) are listed in KNOWN_FINDINGS.json keyed by (ISA, mode, relation, setup function).",
     design="DESIGN.md section 3, C05"),
  "C06": dict(
@@ -138,7 +138,7 @@ CHECKS = {
     technique="bounded exhaustive enumeration of (encoding, start state) vectors: RISC-V base opcodes encoded from the manual against a reference interpreter; x86-64/IA-32 integer encodings executed natively on this CPU (native/x86run) and by amoco from the same concrete state",
     text="RISC-V: every RV32I/RV64I base opcode with rd/rs1/rs2 over {x0,x1,x2}, boundary immediates, all shift amounts, all load/store sizes, branches, from all pairs of a 12-value boundary set and 4 pc values: destination registers, pc and stored bytes versus an interpreter written from the manual. "
          "x86: ~2400 encodings of the user-mode integer subset (from amoco's spec enumeration plus explicit shift/rotate count sweeps, SETcc/CMOVcc over all conditions) x 20-34 register/flag states: all 16 GPRs, the architecturally defined status flags and the touched scratch memory versus the processor.",
-    note="The x86 oracle is this CPU; undefined flags/destinations are masked per Intel SDM; vectors on which the CPU faults are skipped; IA-32 is compared for encodings whose meaning is mode independent. Non-constant amoco results are accepted. ~110 known findings (e.g. SF of logic ops, REP with count 0, CDQ, PUSH imm, RISC-V signed compares/LUI/JALR).",
+    note="The x86 oracle is this CPU; undefined flags/destinations are masked per Intel SDM; vectors on which the CPU faults are skipped; IA-32 is compared for encodings whose meaning is mode independent. Non-constant amoco results are accepted. ~110 known findings (e.g. SF of logic ops, REP with count 0, CDQ, PUSH imm, RISC-V signed compares/LUI/JALR). An explicit addressing sweep (LEA/MOV over every SIB base x index with every REX.X/REX.B combination, 67-prefixed forms) and 16/32/64-bit CMOVcc forms are part of the enumeration.",
     design="DESIGN.md section 3, C06"),
  "C07": dict(
     category="model_checking",
@@ -155,14 +155,14 @@ CHECKS = {
          "composition in both endiannesses is compared byte for byte with a last-write-wins dict. Coverage statement, not a sample: "
          "no history inside the bound mis-reads.",
     note="Bounded: offsets 0..5, payload menu (raw 1/2/4, reg, cst, comp; both endiannesses), depth 2 (full) / 3 (reduced) quick, 3/4 thorough. "
-         "Trusted: the 60-line dict reference and the independent expression walker amc/ref/bv.py.",
+         "Trusted: the 60-line dict reference and the independent expression walker amc/ref/bv.py. Addresses are given as ints, constants, symbolic pointers and constant-base pointers whose displacement wraps the address size.",
     design="DESIGN.md section 3, C08"),
  "C20": dict(
     category="fault_enumeration",
     technique="exhaustive fault enumeration on read_program: every prefix truncation, every single-byte corruption (4 values) of every header/table byte (thorough: byte pairs), all byte strings of length <=2, magic numbers x fillers, corrupted HEX/SREC lines, cross-format claims; repeating SIGALRM watchdog per call",
     text="A corpus of 8 generated ELF/PE/Mach-O/HEX/SREC images and 6 shipped samples is fed intact (the right format must claim each), truncated at every length, and with every byte of every header/table structure corrupted; "
          "plus all 65 793 strings of <=2 bytes and 126 magic-number inputs. Each call must return a recognised format object or the raw fallback, within 3 s, without a non-format exception.",
-    note="~95 000 calls (quick). Unbounded loops are caught by a repeating alarm (survives bare except clauses); allocation is bounded by RLIMIT_AS 4 GiB. Known findings keyed by (exception type, innermost function).",
+    note="~95 000 calls (quick). Unbounded loops are caught by a repeating alarm (survives bare except clauses); allocation is bounded by RLIMIT_AS 4 GiB. Known findings keyed by (exception type, innermost function). The corpus includes generated PE images with import tables (in a section without zero-fill tail).",
     design="DESIGN.md section 3, C20"),
 }
 
